@@ -1,5 +1,6 @@
-(* Model of QuicConnectionProtocol (src/aioquic/asyncio/protocol.py, with the two C19 fixes applied: API calls on a
-   terminated protocol fail/finish at once, empty data is not fed to a reader): the bookkeeping of waiters,
+(* Model of QuicConnectionProtocol (src/aioquic/asyncio/protocol.py, with the C19 fixes 1 and 2 applied: API calls on a
+   terminated protocol fail/finish at once, empty data is not fed to a reader; the repair of F4 -- transmit()
+   drains the event queue after sending -- is followed through the flag fx): the bookkeeping of waiters,
    timer handle, deferred transmit and stream readers, as a state machine whose steps are the loop
    callbacks (datagram_received, _handle_timer, the call_soon'ed transmit) and the API calls.
 
@@ -243,8 +244,9 @@ Fixpoint process (q : list event) (s : st) : option Z * st :=
 Definition process_events (s : st) : option Z * st := process (evq s) s.
 
 (* ---------- transmit ---------------------------------------------------------------------------- *)
-(* gt = self._quic.get_timer(); evs_tx = events queued by datagrams_to_send (ConnectionIdIssued ...) *)
-Definition transmit (s : st) (gt : option Z) (evs_tx : list event) : st :=
+(* The part of transmit() up to and including the timer re-arm.
+   gt = self._quic.get_timer(); evs_tx = events queued by datagrams_to_send (ConnectionIdIssued ...) *)
+Definition transmit_core (s : st) (gt : option Z) (evs_tx : list event) : st :=
   let q := evq s ++ evs_tx in
   let '(tm, lt) :=
     match timer s with
@@ -258,6 +260,17 @@ Definition transmit (s : st) (gt : option Z) (evs_tx : list event) : st :=
     end in
   mkSt (connected s) (cwait s) (pings s) (closed s) (futs s) tm gt lt false (soon s)
        (readers s) (wclosing s) q false.
+
+(* fx: the tree has the repair of C19-F4 (probed by the harness on the running code): transmit() ends with
+   self._process_events(), so that the events queued by datagrams_to_send() are handled before it returns.
+   The repair guards _process_events() against re-entrancy (_processing_events): a transmit() called BY an
+   event handler does not drain.  No handler of this model calls transmit() (the base class's
+   quic_event_received and the three QuicServer callbacks do not), so the flag is False whenever a step
+   begins and the guard never fires here; it is exercised on the code by the harness (nested-transmit probe).
+   An exception of a handler during that drain escapes transmit() AFTER the timer was re-armed. *)
+Definition transmit (fx : bool) (s : st) (gt : option Z) (evs_tx : list event) : option Z * st :=
+  let s1 := transmit_core s gt evs_tx in
+  if fx then process_events s1 else (None, s1).
 
 Definition transmit_soon (s : st) : st :=
   if ttask s then s else
@@ -286,73 +299,101 @@ Inductive op :=
    R_INVALID: the step is not enabled (the loop has no such handle); state unchanged. *)
 Definition R_INVALID : Z := 99.
 
-Definition step (s : st) (o : op) : option Z * list Z * st :=
+(* A step = what it does before any event is handled (prepare), then -- for the steps that reach
+   transmit() -- [_process_events()] ; transmit().  The second half is written once, generically in the
+   procedure that handles the queued events (run_plan), so that coq/model/ServerComp.v can run the very same
+   steps with QuicServer's callbacks plugged in. *)
+Inductive plan :=
+| PDone (x : option Z) (extra : list Z) (s : st)                                   (* finished, no event handled *)
+| PGo (extra : list Z) (s : st) (pe : bool) (gt : option Z) (evs_tx : list event). (* pe: _process_events() first; then transmit() *)
+
+Definition prepare (s : st) (o : op) : plan :=
   match o with
-  | ORecv evs gt evs_tx =>
-      match process_events (with_evq s (evq s ++ evs)) with
-      | (Some x, s') => (Some x, [], s')                 (* transmit() is skipped *)
-      | (None, s') => (None, [], transmit s' gt evs_tx)
-      end
+  | ORecv evs gt evs_tx => PGo [] (with_evq s (evq s ++ evs)) true gt evs_tx
   | OTimer w now evs gt evs_tx =>
-      if negb (memz w (ltimers s)) then (Some R_INVALID, [], s) else
+      if negb (memz w (ltimers s)) then PDone (Some R_INVALID) [] s else
       let s0 := mkSt (connected s) (cwait s) (pings s) (closed s) (futs s) (timer s) (timer_at s)
                      (remove_one w (ltimers s)) (ttask s) (soon s) (readers s) (wclosing s) (evq s) (dirty s) in
       match timer_at s0 with
-      | None => (Some X_TIMER_NONE, [], s0)              (* max(None, loop.time()) *)
+      | None => PDone (Some X_TIMER_NONE) [] s0              (* max(None, loop.time()) *)
       | Some ta =>
           let tnow := Z.max ta now in
-          let s1 := mkSt (connected s0) (cwait s0) (pings s0) (closed s0) (futs s0) None None
-                         (ltimers s0) (ttask s0) (soon s0) (readers s0) (wclosing s0) (evq s0 ++ evs) (dirty s0) in
-          match process_events s1 with
-          | (Some x, s') => (Some x, [tnow], s')
-          | (None, s') => (None, [tnow], transmit s' gt evs_tx)
-          end
+          PGo [tnow]
+              (mkSt (connected s0) (cwait s0) (pings s0) (closed s0) (futs s0) None None
+                    (ltimers s0) (ttask s0) (soon s0) (readers s0) (wclosing s0) (evq s0 ++ evs) (dirty s0))
+              true gt evs_tx
       end
   | ORunSoon gt evs_tx =>
       match soon s with
-      | O => (Some R_INVALID, [], s)
+      | O => PDone (Some R_INVALID) [] s
       | S n =>
-          let s0 := mkSt (connected s) (cwait s) (pings s) (closed s) (futs s) (timer s) (timer_at s)
-                         (ltimers s) (ttask s) n (readers s) (wclosing s) (evq s) (dirty s) in
-          (None, [], transmit s0 gt evs_tx)
+          PGo [] (mkSt (connected s) (cwait s) (pings s) (closed s) (futs s) (timer s) (timer_at s)
+                       (ltimers s) (ttask s) n (readers s) (wclosing s) (evq s) (dirty s)) false gt evs_tx
       end
-  | OTransmit gt evs_tx => (None, [], transmit s gt evs_tx)
-  | OClose gt evs_tx => (None, [], transmit s gt evs_tx)
+  | OTransmit gt evs_tx => PGo [] s false gt evs_tx
+  | OClose gt evs_tx => PGo [] s false gt evs_tx
   | OPing uid gt evs_tx =>
-      if closed s then (Some X_CONNECTION_ERROR, [], s) else     (* raise ConnectionError before anything else *)
+      if closed s then PDone (Some X_CONNECTION_ERROR) [] s else     (* raise ConnectionError before anything else *)
       let i := length (futs s) in
-      let s1 := with_pings (with_futs s (futs s ++ [FPending])) (ping_set uid i (pings s)) in
-      (None, [], transmit s1 gt evs_tx)
+      PGo [] (with_pings (with_futs s (futs s ++ [FPending])) (ping_set uid i (pings s))) false gt evs_tx
   | OWaitConnected =>
       match cwait s with
-      | Some _ => (Some X_ALREADY_AWAITING, [], s)
+      | Some _ => PDone (Some X_ALREADY_AWAITING) [] s
       | None =>
-          if connected s then (None, [1], s)              (* returns at once *)
-          else if closed s then (Some X_CONNECTION_ERROR, [], s)
-          else (None, [0], with_cwait (with_futs s (futs s ++ [FPending])) (Some (length (futs s))))
+          if connected s then PDone None [1] s              (* returns at once *)
+          else if closed s then PDone (Some X_CONNECTION_ERROR) [] s
+          else PDone None [0] (with_cwait (with_futs s (futs s ++ [FPending])) (Some (length (futs s))))
       end
-  | OWrite sid => (None, [], transmit_soon (set_dirty s))
+  | OWrite sid => PDone None [] (transmit_soon (set_dirty s))
   | OWriteEof sid =>
-      if memz sid (wclosing s) then (None, [], s) else
+      if memz sid (wclosing s) then PDone None [] s else
       let s1 := mkSt (connected s) (cwait s) (pings s) (closed s) (futs s) (timer s) (timer_at s) (ltimers s)
                      (ttask s) (soon s) (readers s) (wclosing s ++ [sid]) (evq s) true in
-      (None, [], transmit_soon s1)
+      PDone None [] (transmit_soon s1)
   | OCreateStream sid =>
       (* a new reader replaces the dict entry; a new QuicStreamAdapter (with _closing = False) is
          what the application now holds for this stream id *)
       let s1 := mkSt (connected s) (cwait s) (pings s) (closed s) (futs s) (timer s) (timer_at s) (ltimers s)
                      (ttask s) (soon s) (readers s) (filter (fun x => negb (x =? sid)) (wclosing s)) (evq s) (dirty s) in
-      (None, [], with_readers s1 (rd_set (mkReader sid [] (closed s)) (readers s1)))   (* feed_eof() if _closed is set *)
-  | OTransmitSoon => (None, [], transmit_soon s)
+      PDone None [] (with_readers s1 (rd_set (mkReader sid [] (closed s)) (readers s1)))   (* feed_eof() if _closed is set *)
+  | OTransmitSoon => PDone None [] (transmit_soon s)
   end.
 
-Fixpoint run (s : st) (ops : list op) : st :=
+(* proc w s = _process_events() in a world w (the objects the handlers act on);
+   txh w evs_tx = what datagrams_to_send() does to the world (ghost bookkeeping only).
+   An exception inside the first _process_events() skips transmit(); with fx the second drain runs after
+   transmit_core, i.e. after the timer has been re-armed. *)
+Definition run_plan {W : Type} (proc : W -> st -> option Z * W * st) (txh : W -> list event -> W)
+                    (fx : bool) (w : W) (pl : plan) : option Z * list Z * W * st :=
+  match pl with
+  | PDone x extra s => (x, extra, w, s)
+  | PGo extra s pe gt evs_tx =>
+      let '(x1, w1, s1) := if pe then proc w s else (None, w, s) in
+      match x1 with
+      | Some x => (Some x, extra, w1, s1)                 (* transmit() is skipped *)
+      | None =>
+          let s2 := transmit_core s1 gt evs_tx in
+          let w2 := txh w1 evs_tx in
+          if fx then let '(x2, w3, s3) := proc w2 s2 in (x2, extra, w3, s3)
+          else (None, extra, w2, s2)
+      end
+  end.
+
+(* stand-alone adapter: the outcomes of the three server callbacks are data carried by the events *)
+Definition proc0 (w : unit) (s : st) : option Z * unit * st :=
+  let '(x, s') := process_events s in (x, w, s').
+
+Definition step (fx : bool) (s : st) (o : op) : option Z * list Z * st :=
+  let '(x, extra, _, s') := run_plan proc0 (fun w _ => w) fx tt (prepare s o) in (x, extra, s').
+
+Fixpoint run (fx : bool) (s : st) (ops : list op) : st :=
   match ops with
   | [] => s
-  | o :: t => let '(_, _, s') := step s o in run s' t
+  | o :: t => let '(_, _, s') := step fx s o in run fx s' t
   end.
 
 (* ---------- executable interface ------------------------------------------------------------------
+   first token: fx (0 = transmit() does not drain the event queue, 1 = it does), then the ops.
    events:  n then per event: 0 | 1 hx | 2 uid | 3 sid fin len bytes.. | 4 cid hx | 5 cid hx | 6
    option:  0 | 1 v
    ops: 0 evs gt evs_tx | 1 w now evs gt evs_tx | 2 gt evs_tx | 3 gt evs_tx | 4 gt evs_tx | 5 uid gt evs_tx
@@ -419,14 +460,18 @@ Definition obs_st (s : st) : list Z :=
 
 Definition out_exn (x : option Z) : Z := match x with None => 0 | Some k => k end.
 
-Fixpoint exec_ad (fuel : nat) (s : st) (t : list Z) : list Z :=
+Fixpoint exec_ad (fuel : nat) (fx : bool) (s : st) (t : list Z) : list Z :=
   match fuel with O => [] | S fuel =>
   match tk_op t with
   | None => []
   | Some (o, t) =>
-      let '(x, extra, s') := step s o in
-      out_exn x :: out_list extra ++ obs_st s' ++ exec_ad fuel s' t
+      let '(x, extra, s') := step fx s o in
+      out_exn x :: out_list extra ++ obs_st s' ++ exec_ad fuel fx s' t
   end end.
 
 (* EXTRACT: exec_adapter *)
-Definition exec_adapter (ops : list Z) : list Z := exec_ad (length ops) st_init ops.
+Definition exec_adapter (ops : list Z) : list Z :=
+  match ops with
+  | [] => []
+  | f :: t => exec_ad (length t) (z2b f) st_init t
+  end.
